@@ -160,7 +160,7 @@ def _comodo(ctx, P):
 
 
 # ---------------------------------------------------------------------------------- SGRID
-def sgrid_ds(topology, paddings, space=True, names=None, vertical=None):
+def sgrid_ds(topology, paddings, space=True, names=None, vertical=None, reversed_entries=False):
     """names: per axis (cell, node).  paddings: per axis padding word."""
     sep = ": " if space else ":"
     names = names or [("xi_rho", "xi_psi"), ("eta_rho", "eta_psi"), ("s_rho", "s_w")]
@@ -168,7 +168,9 @@ def sgrid_ds(topology, paddings, space=True, names=None, vertical=None):
     attrs = {"cf_role": "grid_topology", "topology_dimension": topology}
     attrs["node_dimensions"] = " ".join(nd for _, nd in names[:n])
     key = "volume_dimensions" if topology == 3 else "face_dimensions"
-    attrs[key] = " ".join(f"{c}{sep}{nd} (padding{sep}{p})" for (c, nd), p in zip(names[:n], paddings[:n]))
+    entries = [f"{c}{sep}{nd} (padding{sep}{p})" for (c, nd), p in zip(names[:n], paddings[:n])]
+    # the entries are matched to the node dimensions by name: the order in which the attribute lists them is free
+    attrs[key] = " ".join(entries[::-1] if reversed_entries else entries)
     if vertical is not None:
         c, nd = names[2]
         attrs["vertical_dimensions"] = f"{c}{sep}{nd} (padding{sep}{vertical})"
@@ -178,15 +180,24 @@ def sgrid_ds(topology, paddings, space=True, names=None, vertical=None):
 
 def _sgrid(ctx, P):
     fi = P.func("sgrid:get_axis_positions_and_coords")
-    ev = Evaluator(P, method_models=ds_models())
+    from .c15 import match_method_models, re_models
+    import re as _re
+
+    rm = dict(re_models())
+    rm["re.escape"] = lambda ev_, a, k, n: _re.escape(a[0]) if a and isinstance(a[0], str) else TOP
+    mmods = dict(ds_models())
+    mmods.update(match_method_models())
+    ev = Evaluator(P, models=rm, method_models=mmods)
     pads = ["low", "high", "both", "none"]
     name_sets = {
         "ROMS-like names": [("xi_rho", "xi_psi"), ("eta_rho", "eta_psi"), ("s_rho", "s_w")],
         "node names contained in cell names": [("xc", "x"), ("yc", "y"), ("zc", "z")],
         "cell names contained in node names": [("x", "x_node"), ("y", "y_node"), ("z", "z_node")],
+        "names that are the tail of the next axis' names": [("rho", "psi"), ("eta_rho", "eta_psi"), ("s_eta_rho", "s_eta_psi")],
     }
     n = 0
-    for nset, names in name_sets.items():
+    work = [(nset, names, False) for nset, names in name_sets.items()] + [(nset + ", entries listed in reverse", names, True) for nset, names in list(name_sets.items())[-1:]]
+    for nset, names, rev_entries in work:
         for topo, vert in ((1, None), (2, None), (2, "v"), (3, None)):
             axes = ["X"] if topo == 1 else ["X", "Y"] + (["Z"] if (topo == 3 or vert) else [])
             for pad in pads:
@@ -198,7 +209,7 @@ def _sgrid(ctx, P):
                         is_vert = (ax == "Z" and vert is not None)
                         if not is_vert:
                             pp[i] = pad
-                        ds = sgrid_ds(topo, pp, space, names, vertical=(pad if is_vert else (others[2] if vert else None)))
+                        ds = sgrid_ds(topo, pp, space, names, vertical=(pad if is_vert else (others[2] if vert else None)), reversed_entries=rev_entries)
                         inst = f"SGRID {nset}, {topo}-D{' + vertical' if vert else ''}, axis {ax}, padding {pad}, {'with' if space else 'without'} space"
                         try:
                             outs = ev.run_paths(fi, lambda: dict(ds=ds, axis_name=ax))
